@@ -109,8 +109,10 @@ static inline qstr ident_language(ident e) { return ID_LANG(e); }
 static inline qstr ident_name(ident e) { return ID_NAME(e); }
 
 /* ---------------------------------------------------------------- lists */
-#define ORDER_STR_LT 1            /* QString::operator< */
+#define ORDER_STR_LT 1            /* QString::operator< : by UTF-16 code units */
 #define CMP_identityLessThan 2    /* the file-static comparator of QXmppDiscoveryIq.cpp */
+#define ORDER_OCTET 3             /* RFC 4790 i;octet: by the bytes of the UTF-8 encoding (what XEP-0115 prescribes) */
+#define ORDER_OCTET_4TUPLE 4      /* identities: lexicographic on (category, type, lang, name), each compared by i;octet */
 #ifndef C20_BOUNDED               /* (the bounded stand-in replaces lists, QVariant and QMap by the concrete models of bounded.h) */
 int __CPROVER_uninterpreted_list_at(int l, int i);
 int __CPROVER_uninterpreted_list_sorted(int l, int n, int order);
@@ -134,13 +136,26 @@ static inline int qlst_at(const QLst *l, int i)
   __CPROVER_assert(0 <= i && i < l->n, "[safety.list_index_in_range] QList element access within the list");
   return LAT(l->id, i);
 }
+/* A-UTF16-OCTET.  UTF-16 code-unit order and UTF-8 byte order agree on every pair of strings except when, at the first
+   position where the two differ, one has a supplementary character (a surrogate pair, U+10000..) and the other a character in
+   U+E000..U+FFFF.  The ghost flag says that no two strings of the info set form such a pair (discriminator of the recorded finding
+   C20-utf16-collation); then sorting by QString's `<` -- and, for identities, by a comparator that is the lexicographic order
+   of QString's `<` on the four components, which is what identityLessThan's contract says -- yields the i;octet-sorted list. */
+bool gh_qstring_order_is_octet_order;
+static inline void sort_orders_agree(int l, int n, int order)
+{
+  if (!gh_qstring_order_is_octet_order) return;
+  if (order == ORDER_STR_LT) __CPROVER_assume(l_sorted(l, n, ORDER_STR_LT) == l_sorted(l, n, ORDER_OCTET));
+  if (order == CMP_identityLessThan) __CPROVER_assume(l_sorted(l, n, CMP_identityLessThan) == l_sorted(l, n, ORDER_OCTET_4TUPLE));
+}
 static inline void std_sort3(QLst *b, QLst *e, int order)
 {
   MODEL_LIMIT(b == e, "std::sort over begin()/end() of two different containers");
+  sort_orders_agree(b->id, b->n, order);
   b->id = l_sorted(b->id, b->n, order);
 }
 static inline void std_sort2(QLst *b, QLst *e) { std_sort3(b, e, ORDER_STR_LT); }
-static inline void qlst_sort(QLst *l) { l->id = l_sorted(l->id, l->n, ORDER_STR_LT); }   /* QStringList::sort(Qt::CaseSensitive) */
+static inline void qlst_sort(QLst *l) { sort_orders_agree(l->id, l->n, ORDER_STR_LT); l->id = l_sorted(l->id, l->n, ORDER_STR_LT); }   /* QStringList::sort(Qt::CaseSensitive) */
 static inline int qlst_removeDuplicates(QLst *l)
 {
   int n = l->n, m = l_dedup_n(l->id, n);
@@ -150,6 +165,17 @@ static inline int qlst_removeDuplicates(QLst *l)
   return n - m;
 }
 static inline qstr qlst_join(const QLst *l, quint16 sep) { return l_join(l->id, l->n, qchar_str(sep)); }
+static inline bool qlst_isEmpty(const QLst *l) { return l->n == 0; }
+/* QList::append(x) / operator<<(x) (A-QLIST): a function of (list, x); [x] for the empty list; the append succeeds */
+#define QLIST_MAX 0x7ffffff   /* QList cannot hold more elements (allocation fails first) */
+int __CPROVER_uninterpreted_list_push(int l, int n, int x);
+static inline int l_push(int l, int n, int x) { return n <= 0 ? l_single(x) : __CPROVER_uninterpreted_list_push(l, n, x); }
+static inline void qlst_append(QLst *l, int x)
+{
+  __CPROVER_assume(l->n >= 0 && l->n < QLIST_MAX);
+  l->id = l_push(l->id, l->n, x);
+  l->n = l->n + 1;
+}
 
 /* ---------------------------------------------------------------- QVariant */
 enum { VK_INVALID = 0, VK_STRING = 1, VK_STRINGLIST = 2, VK_BOOL = 3 };
@@ -177,6 +203,8 @@ static inline void qvar_toStringList(QLst *r, qvar v)
   else if (k == VK_STRING) { r->id = l_single(VSTR(v)); r->n = 1; }
   else { r->id = 0; r->n = 0; }
 }
+bool __CPROVER_uninterpreted_var_tobool(qvar v);
+static inline bool qvar_toBool(qvar v) { return VK(v) == VK_BOOL ? VBOOL(v) : __CPROVER_uninterpreted_var_tobool(v); }
 static inline qstr qvar_toString(qvar v)
 {
   int k = VK(v);
@@ -210,6 +238,7 @@ static inline void qmap_keys(QLst *r, qmap m)
 {
   r->id = MAP_KEYS(m); r->n = MAP_SIZE(m);
   __CPROVER_assume(r->n >= 0 && l_sorted(r->id, r->n, ORDER_STR_LT) == r->id);
+  sort_orders_agree(r->id, r->n, ORDER_STR_LT);
 }
 
 #endif /* !C20_BOUNDED */
